@@ -19,6 +19,7 @@ import (
 	"verif/lib/gen"
 	"verif/lib/ref"
 	"verif/lib/rep"
+	"verif/lib/store"
 )
 
 type scenario struct {
@@ -37,6 +38,7 @@ type obsv struct {
 	Expires string `json:"expires_reported,omitempty"`
 	Err     string `json:"err,omitempty"`
 	Stored  string `json:"stored_record,omitempty"`
+	Fault   bool   `json:"storage_fault_injected,omitempty"`
 }
 
 type result struct {
@@ -51,8 +53,9 @@ type result struct {
 func runScenario(s scenario, idx int) result {
 	res := result{S: s}
 	st := drv.MustMem()
+	wst := store.New(st)
 	name := fmt.Sprintf("T%d", idx)
-	loc, err := drv.NewLoc(name, s.State, st)
+	loc, err := drv.NewLoc(name, s.State, wst)
 	if err != nil {
 		res.WErr = err.Error()
 		return res
@@ -95,10 +98,16 @@ func runScenario(s scenario, idx int) result {
 			time.Sleep(d)
 		}
 		o := obsv{Action: action}
+		if strings.HasPrefix(action, "fault-") {
+			// the next storage call (the purge of the expired item) fails
+			action = strings.TrimPrefix(action, "fault-")
+			o.Fault = true
+			wst.FailAt = wst.NCalls() + 1
+		}
 		o.Before = time.Now().Unix()
 		switch action {
 		case "reload":
-			l2, err := drv.NewLoc(name, s.State, st)
+			l2, err := drv.NewLoc(name, s.State, wst)
 			if err != nil {
 				o.Err = err.Error()
 			} else {
@@ -158,6 +167,7 @@ func runScenario(s scenario, idx int) result {
 			}
 		}
 		o.After = time.Now().Unix()
+		wst.FailAt = 0
 		st.Lock()
 		if rec, ok := st.State(nil)[name]["it"]; ok {
 			o.Stored = rec
@@ -208,6 +218,17 @@ func judge(r *rep.Report, res result) {
 		if o.Action == "reload" {
 			if o.Err != "" {
 				r.Violate("", "reload failed: "+o.Err, wit)
+			}
+			continue
+		}
+		if o.Fault {
+			// the purge failed: an error is fine, handing the expired item out is not
+			r.Count("observations_with_storage_fault", 1)
+			if o.Present && o.Before >= hi {
+				r.Violate("", fmt.Sprintf("an expired item was handed out (%s) because purging it from storage failed", o.Action), wit)
+			}
+			if o.Before >= hi {
+				certAfter = true
 			}
 			continue
 		}
@@ -271,7 +292,7 @@ func main() {
 		for _, kind := range []string{"fact", "rule"} {
 			for _, enc := range []string{"expires-num", "expires-rfc3339", "ttl-num", "ttl-dur", "none"} {
 				for _, state := range drv.Kinds {
-					for variant := 0; variant < 3; variant++ {
+					for variant := 0; variant < 4; variant++ {
 						ahead := 3 + g.Intn(2)
 						E := ahead * 1000
 						var steps []string
@@ -285,6 +306,8 @@ func main() {
 							steps = []string{"150:" + a(), "1300:reload", "1450:" + a(), fmt.Sprintf("%d:%s", E+1200, a()), fmt.Sprintf("%d:%s", E+1400, a())}
 						case 1: // reload immediately, reads around E, reload after E
 							steps = []string{"50:reload", "300:" + a(), fmt.Sprintf("%d:%s", E-1500, a()), fmt.Sprintf("%d:reload", E+1100), fmt.Sprintf("%d:%s", E+1300, a()), fmt.Sprintf("%d:%s", E+1500, a())}
+						case 3: // the storage fails exactly when the expired item is first seen
+							steps = []string{"150:" + a(), fmt.Sprintf("%d:fault-%s", E+1200, a()), fmt.Sprintf("%d:%s", E+1400, a()), fmt.Sprintf("%d:%s", E+1500, a())}
 						default: // reads only, dense around the boundary second
 							steps = []string{"100:" + a(), fmt.Sprintf("%d:%s", E-1200, a()), fmt.Sprintf("%d:%s", E-200, a()), fmt.Sprintf("%d:%s", E+300, a()), fmt.Sprintf("%d:%s", E+1100, a()), fmt.Sprintf("%d:reload", E+1200), fmt.Sprintf("%d:%s", E+1400, a())}
 						}
